@@ -219,6 +219,25 @@ def clash24(*args, **kwargs): cw4(*args, **kwargs); return cw2(*args, **kwargs)
 def clash15(*args, **kwargs): cw5(*args, **kwargs); return cw1(*args, **kwargs)
 def clash25(*args, **kwargs): cw5(*args, **kwargs); return cw2(*args, **kwargs)
 def clash35(*args, **kwargs): cw3(*args, **kwargs); cw5(*args, **kwargs); return cw2(*args, **kwargs)
+# forwarding calls whose OTHER arguments cannot be followed
+NOT_ITERABLE = 5
+NOT_A_MAPPING = 7
+def star_const_fwd(*a, **k): return target(*NOT_ITERABLE, **k)
+def dstar_const_fwd(*a, **k): return target(*a, **NOT_A_MAPPING)
+def partial_of_stars(*a, **k): return functools.partial(*a, **k)
+def self_call_more_args(*a, **k): return self_call_more_args(1, *a, **k)
+def mutual_more_a(*a, **k): return mutual_more_b(0, *a, **k)
+def mutual_more_b(*a, **k): return mutual_more_a(0, 1, *a, **k)
+def two_params(a, b): return a, b
+def fwd_two(*args, **kwargs): return two_params(*args, **kwargs)
+partial_overbound = functools.partial(fwd_two, 1, 2, 3)
+partial_unknown_kw = functools.partial(fwd_two, z=1)
+partial_twice = functools.partial(fwd_two, 1, a=2)
+class UnhashableCallable:
+    __hash__ = None
+    def __eq__(self, other): return True
+    def __call__(self, a, b=1): return a, b
+unhashable_instance = UnhashableCallable()
 def clash_branch(flag, *args, **kwargs):
     if flag: return cw2(*args, **kwargs)
     else: return cw1(flag, *args, **kwargs)
